@@ -517,3 +517,65 @@ Proof.
   exists (mk_ipv4 5 240 27855 49362 2783 1 163 205 0 3547720266 0).
   split; [vm_compute; reflexivity|]. vm_compute. discriminate.
 Qed.
+
+(* every single-bit corruption of the 20 header bytes of an accepted header is rejected *)
+Lemma ipv4_single_flip_rejected : forall fck ftl bs h i j, bytes bs ->
+  ipv4_decode fck ftl true bs = Ok h -> (i < 20)%nat -> 0 <= j < 8 ->
+  forall h', ipv4_decode fck ftl true (flip_at bs i j) <> Ok h'.
+Proof.
+  intros fck ftl bs h i j Hb H Hi Hj.
+  assert (Hl : (20 <= length bs)%nat).
+  { apply ipv4_decode_ok_inv in H. destruct H as (? & ? & ? & ? & ? & ? & ? & ? & ? & ? & ? & ? & ? & ? & ?
+      & ? & ? & ? & ? & ? & ? & -> & _). cbn [length]. lia. }
+  eapply ipv4_corruption_detected; try eassumption.
+  - apply flip_at_bytes; assumption.
+  - rewrite firstn_flip_at by assumption.
+    pose proof (single_flip_changes_sum (firstn 20 bs) i j 0) as S. cbn [Z.add] in S.
+    apply S; [rewrite firstn_length; lia | apply bytes_firstn; assumption | assumption].
+Qed.
+(* two flipped bits: rejected unless they form a compensating pair *)
+Lemma ipv4_double_flip_rejected : forall fck ftl bs h i1 j1 i2 j2, bytes bs ->
+  ipv4_decode fck ftl true bs = Ok h -> (i1 < 20)%nat -> (i2 < 20)%nat -> 0 <= j1 < 8 -> 0 <= j2 < 8 ->
+  (i1 <> i2 \/ j1 <> j2) ->
+  ~ (bit_exp i1 j1 = bit_exp i2 j2 /\ Z.testbit (nth i1 bs 0) j1 <> Z.testbit (nth i2 bs 0) j2) ->
+  forall h', ipv4_decode fck ftl true (flip_at (flip_at bs i1 j1) i2 j2) <> Ok h'.
+Proof.
+  intros fck ftl bs h i1 j1 i2 j2 Hb H Hi1 Hi2 Hj1 Hj2 Hne Hnc.
+  assert (Hl : (20 <= length bs)%nat).
+  { apply ipv4_decode_ok_inv in H. destruct H as (? & ? & ? & ? & ? & ? & ? & ? & ? & ? & ? & ? & ? & ? & ?
+      & ? & ? & ? & ? & ? & ? & -> & _). cbn [length]. lia. }
+  eapply ipv4_corruption_detected; try eassumption.
+  - apply flip_at_bytes; [apply flip_at_bytes|]; assumption.
+  - rewrite !firstn_flip_at by assumption.
+    pose proof (double_flip_unchanged_iff (firstn 20 bs) i1 j1 i2 j2 0) as D. cbn [Z.add] in D.
+    assert (N1 : nth i1 (firstn 20 bs) 0 = nth i1 bs 0) by (apply nth_firstn_lt; assumption).
+    assert (N2 : nth i2 (firstn 20 bs) 0 = nth i2 bs 0) by (apply nth_firstn_lt; assumption).
+    rewrite N1, N2 in D. intro E. apply Hnc. apply D; try assumption;
+      try (rewrite firstn_length; lia). apply bytes_firstn; assumption.
+Qed.
+
+(* the decoder accepts the RFC 791 encoding of every supported field combination and returns
+   exactly those fields *)
+Lemma ipv4_decode_rfc : forall fck ftl ck prec d t r plen ident df mf frag ttl proto src dst payload,
+  0 <= prec < 8 -> 0 <= d < 2 -> 0 <= t < 2 -> 0 <= r < 2 ->
+  0 <= plen -> plen + 20 <= 65535 -> u16 ident -> 0 <= df < 2 -> 0 <= mf < 2 -> 0 <= frag <= 8191 ->
+  u8 ttl -> u8 proto -> u32 src -> u32 dst ->
+  let tos := prec * 32 + d * 16 + t * 8 + r * 4 in
+  let flags := df * 2 + mf in
+  let cks := ipv4_cksum ck tos (plen + 20) ident (flags * 8192 + frag) ttl proto src dst in
+  ipv4_decode fck ftl ck
+    (rfc791_bytes 4 5 prec d t r (plen + 20) ident df mf frag ttl proto cks src dst ++ payload)
+  = Ok (mk_ipv4 5 tos (plen + 20) ident frag flags ttl proto cks src dst).
+Proof.
+  intros fck ftl ck prec d t r plen ident df mf frag ttl proto src dst payload
+         Hprec Hd Ht Hr Hp Hp2 Hid Hdf Hmf Hfrag Httl Hpr Hsrc Hdst tos flags cks.
+  destruct (ipv4_decode_encode fck ftl ck (mk_ipv4 5 tos (plen + 20) ident frag flags ttl proto cks src dst) payload)
+    as (bs & He & _ & Hdec).
+  { unfold ipv4_wf. cbn [ip_ihl ip_tos ip_len ip_id ip_frag ip_flags ip_ttl ip_proto ip_ck ip_src ip_dst].
+    subst cks tos flags. unfold u8, u16, u32 in *. repeat split; try lia; try assumption; try reflexivity. }
+  unfold ipv4_encode in He. cbn [ip_ihl ip_tos ip_len ip_id ip_frag ip_flags ip_ttl ip_proto ip_ck ip_src ip_dst] in He.
+  replace (plen + 20 <? 20) with false in He by lia.
+  replace (plen + 20 - 20) with plen in He by lia.
+  subst cks tos flags. rewrite ipv4_matches_rfc in He by assumption.
+  apply Ok_inj in He. subst bs. exact Hdec.
+Qed.
